@@ -279,3 +279,9 @@ try:
     ITEMS += _C20
 except ImportError:
     pass
+
+try:
+    from translate_c15 import ITEMS as _C15
+    ITEMS += _C15
+except ImportError:
+    pass
